@@ -101,8 +101,10 @@ def run_oracle(name, tier, seed, timeout=3000):
     except BuildError as e:
         return {"name": name, "status": "undecided", "detail": "native build failed: " + str(e)[-1500:], "cases": 0, "failures": []}
     try:
+        env = dict(os.environ)
+        env.setdefault("RAYON_NUM_THREADS", "2")  # API-level oracles: a 16-thread pool only adds wake-up overhead
         p = subprocess.run([binp, name, tier, str(seed)], capture_output=True, text=True, timeout=timeout,
-                           cwd=ROOT)
+                           cwd=ROOT, env=env)
     except subprocess.TimeoutExpired:
         return {"name": name, "status": "undecided", "detail": "timeout", "cases": 0, "failures": []}
     try:
